@@ -7,7 +7,8 @@ def main():
     path, tier, seed, out = sys.argv[1], sys.argv[2], int(sys.argv[3]), sys.argv[4]
     only = sys.argv[5].split(",") if len(sys.argv) > 5 and sys.argv[5] else None
     try:
-        resource.setrlimit(resource.RLIMIT_AS, (24 << 30, 24 << 30))
+        hard = resource.getrlimit(resource.RLIMIT_AS)[1]
+        resource.setrlimit(resource.RLIMIT_AS, (24 << 30, hard))     # soft limit only: sanitizer replays lift it again
     except Exception:
         pass
     eng = set(o.engine for o in runner.parse_header(path))
